@@ -25,8 +25,8 @@ var lookCases = []lookCase{
 		"func entry() uint64 {\n\treturn disk.Read(3)*10 + disk.Size()\n}\n", "uint64"},
 	{"disk-type-methods", "disk", "package disk\n\ntype Disk struct {\n\tbase uint64\n}\n\nfunc (d *Disk) Read(a uint64) uint64 {\n\treturn d.base + a\n}\n\nfunc (d *Disk) Size() uint64 {\n\treturn d.base * 2\n}\n\nfunc Mk(b uint64) *Disk {\n\treturn &Disk{base: b}\n}\n",
 		"func entry() uint64 {\n\td := disk.Mk(40)\n\treturn d.Read(2)*1000 + d.Size()\n}\n", "uint64"},
-	{"disk-value-type", "disk", "package disk\n\ntype Disk struct {\n\tbase uint64\n}\n\nfunc (d Disk) Read(a uint64) uint64 {\n\treturn d.base + a\n}\n\nfunc (d Disk) Barrier() uint64 {\n\treturn 5\n}\n",
-		"func entry() uint64 {\n\td := disk.Disk{base: 40}\n\treturn d.Read(2)*1000 + d.Barrier()\n}\n", "uint64"},
+	{"disk-value-type", "disk", "package disk\n\ntype Disk struct {\n\tBase uint64\n}\n\nfunc (d Disk) Read(a uint64) uint64 {\n\treturn d.Base + a\n}\n\nfunc (d Disk) Barrier() uint64 {\n\treturn 5\n}\n",
+		"func entry() uint64 {\n\td := disk.Disk{Base: 40}\n\treturn d.Read(2)*1000 + d.Barrier()\n}\n", "uint64"},
 	{"async-disk-type", "async_disk", "package async_disk\n\ntype Disk struct {\n\tbase uint64\n}\n\nfunc (d *Disk) Size() uint64 {\n\treturn d.base * 2\n}\n\nfunc Mk(b uint64) *Disk {\n\treturn &Disk{base: b}\n}\n",
 		"func entry() uint64 {\n\td := async_disk.Mk(40)\n\treturn d.Size()\n}\n", "uint64"},
 	{"machine-funcs", "machine", "package machine\n\nfunc UInt64Put(p []byte, x uint64) {\n\tp[0] = byte(x + 1)\n}\n\nfunc RandomUint64() uint64 {\n\treturn 4\n}\n",
